@@ -32,7 +32,8 @@ LEVEL_TEXT = ("Lean theorems for all metrics: Python round is within 1/2; _nudge
               "Tie: _nudge_into_range, _ppem, _width_in_pixels, BitmapMetrics.create are run on a metrics grid against the Lean definitions. "
               "Checker on real cbdt/sbix fonts built from synthetic PNGs (gid orders with gaps): image bytes reached from the codepoints are the "
               "source bytes, ppem, per-glyph metrics within the proved bound, strikes = maximal consecutive runs, one bitmap per colour glyph.")
-LEVEL_NOTE = "float(config.upem) arithmetic is modelled exactly (small integers). Pillow reads PNG sizes. Trusted: Lean kernel, harness, fontTools reader."
+LEVEL_NOTE = ("float(config.upem) arithmetic is modelled exactly (small integers). Pillow reads PNG sizes. Trusted: Lean kernel, harness, fontTools reader."
+              " Tie T': `_nudge_into_range`, `_ppem`, `_width_in_pixels`, `BitmapMetrics.create` are re-translated from bitmap_tables.py on every run and proved equal to the models (`nudge_eq`, `ppem_eq`, `width_in_pixels_eq`, `bitmap_metrics_eq`).")
 TECHNIQUE = "Lean 4 proof (floor/round arithmetic, list induction) + differential correspondence + structural check of real CBDT/sbix fonts"
 ASSUMPTIONS = []
 
